@@ -189,8 +189,29 @@ func GetS2(c *core.Ctx) *Set {
 			return s
 		}
 		s.Pkgs = pkgs
+		// make every embedded descriptor known to the linker first: packages are modelled in path order, which need
+		// not be dependency order
 		for _, p := range pkgs {
 			if len(p.Errors) > 0 || p.Types == nil || p.TypesInfo == nil {
+				continue
+			}
+			if raws, _, err := gen.RawDescs(p.Syntax, p.TypesInfo); err == nil {
+				for _, fd := range raws {
+					if _, known := s.Linker.Protos[fd.GetName()]; !known {
+						s.Linker.Add(fd)
+					}
+				}
+			}
+		}
+		for _, p := range pkgs {
+			if len(p.Errors) > 0 || p.Types == nil || p.TypesInfo == nil {
+				// code the working-tree generator emits for this schema cannot be analysed at all: no rule about
+				// generated code can be discharged for it, whatever the property (details under GEN.types)
+				msg := "no type information"
+				if len(p.Errors) > 0 {
+					msg = p.Errors[0].Msg
+				}
+				c.Fail("G.model", "S2 package "+strings.TrimPrefix(p.PkgPath, gen.CorpusModule+"/")+" type-checks", "the code generated by the working-tree plugin for this corpus schema does not type-check and cannot be analysed: "+msg, "", "S2")
 				continue
 			}
 			for _, sh := range core.ShadowedUniverse(p) {
